@@ -36,15 +36,65 @@ class KeyVal(str):
 ctxvars = {"context"}   # variables initialised from tera::Context::new() (collected while walking); the conventional name is the seed
 
 
+def _nested_stmt_lists(x):
+    """statement lists that are scopes of their own inside an expression node: block bodies, the branches of an `if`, loop bodies"""
+    k = x.get("k")
+    out = []
+    if k == "block":
+        out.append(x["stmts"])
+    if k == "if":
+        out.append(x["then"])
+        if isinstance(x.get("else"), list):
+            out.append(x["else"])
+    if k in ("for", "while", "loop") and isinstance(x.get("body"), list):
+        out.append(x["body"])
+    return out
+
+
+def _ordered(e):
+    """sub-expressions in source order, not descending into nested statement lists (yielded as ("stmts", list) instead)"""
+    if not isinstance(e, dict):
+        return
+    nested = _nested_stmt_lists(e)
+    if nested:
+        for key in ("cond", "iter", "expr"):
+            if isinstance(e.get(key), dict):
+                yield from _ordered(e[key])
+        for lst in nested:
+            yield ("stmts", lst)
+        if e.get("k") == "if" and isinstance(e.get("else"), dict):
+            yield from _ordered(e["else"])
+        return
+    # receiver and arguments are evaluated before the call itself
+    for c in children(e):
+        yield from _ordered(c)
+    yield e
+
+
 def collect_renders(fn, stmts, inherited, out):
-    """(fn, template name, {key: value expression text (KeyVal)}) for each render call; block scoped"""
+    """(fn, template name, {key: value expression text (KeyVal)}) for each render call, in source order; a nested scope (block, branch, loop body)
+    starts from the keys inserted so far and keeps its own insertions to itself"""
     keys = dict(inherited)
     for st in stmts:
         if st.get("k") == "let" and st.get("init") is not None and re.search(r"(^|::)Context::(new|default)\(", expr_text(st["init"])):
             from srclib import pat_bindings as _pb
             ctxvars.update(_pb(st["pat"]))
+            keys = {}
+        elif st.get("k") == "let" and st.get("init") is not None and st["init"].get("k") in ("call", "mcall"):
+            # `let mut context = self.context_with_header();`: a new private helper that returns a Context it already filled
+            import srclib as _sl
+            from srclib import pat_bindings as _pb
+            i_ = st["init"]
+            nm_ = i_["method"] if i_["k"] == "mcall" else expr_text(i_["func"]).split("::")[-1].strip()
+            h_ = _sl._NEW_HELPERS.get(nm_)
+            if h_ is not None and h_.body is not None and re.sub(r"\s+", "", h_.sig.get("ret") or "").split("::")[-1] == "Context" and h_ is not fn:
+                ctxvars.update(_pb(st["pat"]))
+                keys = dict(collect_renders(h_, h_.body, {}, []))
         for e in stmt_exprs(st):
-            for x in walk_shallow(e):
+            for x in _ordered(e):
+                if isinstance(x, tuple):
+                    collect_renders(fn, x[1], keys, out)
+                    continue
                 if x.get("k") == "mcall" and x["method"] == "insert" and expr_text(x["recv"]) in ctxvars and x["args"] and lit_str(x["args"][0]):
                     kv = KeyVal(expr_text(x["args"][1]) if len(x["args"]) > 1 else "")
                     kv.ast = x["args"][1] if len(x["args"]) > 1 else None
@@ -57,13 +107,7 @@ def collect_renders(fn, stmts, inherited, out):
                     names = [lit_str(a) for a in x["args"] if lit_str(a) and lit_str(a).endswith(".tera")]
                     if len(names) == 1 and any(expr_text(a).lstrip("&").replace("mut ", "").strip() in ctxvars for a in x["args"]):
                         out.append((fn, names[0], dict(keys)))
-            for x in walk_shallow(e):
-                if x.get("k") == "block" and x is not e:
-                    collect_renders(fn, x["stmts"], {}, out)
-            if e.get("k") == "block":
-                collect_renders(fn, e["stmts"], {}, out)
-        if st.get("k") == "let" and st.get("init") is not None and expr_text(st["init"]).startswith("Context::new"):
-            keys = {}
+    return keys
 
 
 def render_sites(S):
